@@ -63,6 +63,11 @@ def run(ctx):
                         and ("/" + mname) not in [o[0] for o in pkg.content_types["overrides"]]:
                     pkg.content_types["defaults"].append((ext, "image/x-" + ext.lower()))
                     declared.add(ext)
+            if pkg.media and rng.random() < 0.5:
+                # content types whose subtype is not a plain word: the file is named with the subtype as it is
+                for mname in sorted(pkg.media):
+                    if ("/" + mname) not in [o[0] for o in pkg.content_types["overrides"]] and rng.random() < 0.6:
+                        pkg.content_types["overrides"].append(("/" + mname, rng.choice(["image/svg+xml", "image/x-emf", "image/vnd.ms-photo", "image/x-png"])))
             if pkg.media and rng.random() < 0.4:
                 # byte-identical images (a logo used twice) are still separate images
                 same = bytes(rng.randrange(256) for _ in range(9))
